@@ -60,7 +60,10 @@ func genbankFieldBodyParser(depth int, sep byte) pars.Parser {
 	fieldLineParser := genbankFieldLineParser(depth)
 	return func(state *pars.State, result *pars.Result) error {
 		pars.Line(state, result)
-		w := bytes.NewBuffer(result.Token)
+		// The token aliases the parser's buffer: collect the lines in a copy,
+		// appending in place would overwrite input that may be read again.
+		w := &bytes.Buffer{}
+		w.Write(result.Token)
 		for fieldLineParser(state, result) == nil {
 			w.WriteByte(sep)
 			w.Write(result.Token)
